@@ -109,7 +109,7 @@ def gen_scenario(r, cls: str) -> Dict[str, Any]:
     if cls == "feesliq" or (cls not in ("ample",) and r.random() < 0.5):
         liq = {"limit": r.choice(["0", "1", "10", "25", "25", "100"]), "impact": r.choice(["0", "5", "10", "50"])}
     lend = None
-    if cls in ("margin", "cross") or (cls in ("random", "long", "precision") and r.random() < 0.45):
+    if cls in ("margin", "cross") or (cls in ("random", "long", "long_q", "precision") and r.random() < 0.45):
         lend = {"quote": quote,
                 "default": _cond(r, symbols, quote) if r.random() < 0.85 else None,
                 "per_symbol": {s: _cond(r, symbols, quote, s) for s in symbols if r.random() < 0.35}}
@@ -117,7 +117,7 @@ def gen_scenario(r, cls: str) -> Dict[str, Any]:
     sc["max_concurrent"] = r.choice([1, 2, 3, 50, 50])
 
     # ---- bars --------------------------------------------------------------------------
-    nbars = {"long": r.randint(250, 420), "precision": r.randint(6, 20)}.get(cls, r.randint(5, 40))
+    nbars = {"long": r.randint(250, 420), "long_q": r.randint(110, 170), "precision": r.randint(6, 20)}.get(cls, r.randint(5, 40))
     vol_units = [D(x) for x in ("0", "1", "3", "10", "100", "1000")]
     vol_mult = [D(x) for x in ("1", "0.37", "2.5", "1.111")]
     vols = [a * b for a in vol_units for b in vol_mult]
@@ -152,7 +152,7 @@ def gen_scenario(r, cls: str) -> Dict[str, Any]:
 
     # ---- strategy script -----------------------------------------------------------------
     actions: Dict[str, List[Dict[str, Any]]] = {}
-    density = {"long": [0, 0, 1, 1, 2], "feesliq": [1, 2, 3, 4, 6], "margin": [0, 1, 2, 3]}.get(cls, [0, 1, 1, 2, 3])
+    density = {"long": [0, 0, 1, 1, 2], "long_q": [0, 0, 1, 1, 2], "feesliq": [1, 2, 3, 4, 6], "margin": [0, 1, 2, 3]}.get(cls, [0, 1, 1, 2, 3])
     for pname, blist in bars.items():
         b, qs = pname.split("/")
         bprec, qprec = symbols[b], symbols[qs]
@@ -167,7 +167,7 @@ def gen_scenario(r, cls: str) -> Dict[str, Any]:
     sc["actions"] = actions
     # a few actions issued from order-event handlers and scheduled jobs
     sc["on_order_event"] = []
-    if cls != "long" and r.random() < 0.5:
+    if cls not in ("long", "long_q") and r.random() < 0.5:
         for _ in range(r.randint(1, 4)):
             sc["on_order_event"].append({"nth_event": r.randint(0, 30),
                                          "action": r.choice([{"op": "cancel", "among": "open", "pick": r.randrange(100)},
@@ -210,7 +210,7 @@ def _price(r, ref: D, qprec: int, nxt) -> D:
 def _gen_action(r, cls: str, sc, pname: str, close: D, nxt, bprec: int, qprec: int, vol: str) -> Dict[str, Any]:
     lend = sc["lend"] is not None
     x = r.random()
-    w_order = {"long": 0.7, "feesliq": 0.8, "margin": 0.5, "ample": 0.85}.get(cls, 0.6)
+    w_order = {"long": 0.7, "long_q": 0.7, "feesliq": 0.8, "margin": 0.5, "ample": 0.85}.get(cls, 0.6)
     if x < w_order:
         # trade possibly on another pair than the one whose bar is being handled
         pairs = list(sc["bars"].keys())
